@@ -1,18 +1,155 @@
 (* C01 - Served answers are exactly what the data file declares.
-   Only statements closed by [exact]; proofs are in Proofs/. *)
-From DnsV Require Import Base.Bytes Spec.Answer Proofs.Answer.
+   Only statements closed by [exact]; proofs are in Proofs/.
+
+   Vocabulary.  [recs] : the declared records (Spec/Answer.record: owner labels lower-cased,
+   wildcard flag, location tag, type, ttl, weight, rdata).  [store_v1 recs] : the v1-keyed store
+   they compile to (Spec/Rows: key = loc2 ++ packed owner, row = type ch [loc] ttl ttd [weight]
+   rdata; rows of a key in file order).  [serve b st q (LocOk L) ecs max] : the model of
+   ServeDNSWithRCODE for a client the server located in L.  [zone_cut], [authoritative],
+   [source_records], [covering_wildcard] : the declarative reading of the statement (Spec/Answer).
+   Guards: [wf_recs] (fields fit their widths, labels 1..63 bytes and lower case, tags are two
+   bytes other than 00), [wf_view] (every name with a visible SOA has a visible NS), [wf_name n]
+   with [lower_bytes (q_name q) = pack n] (n is the lower-cased query name), no OPT or EDNS
+   version 0.  Backends: CDB and RocksDB with v1 keys (b <> RDB2). *)
+From DnsV Require Import Base.Bytes Model.Store Model.LookupV1 Model.Serve Spec.Answer Spec.Rows.
+From DnsV Require Import Proofs.Answer Proofs.Compile Proofs.ZoneCut Proofs.Refused Proofs.NxDomain Proofs.SoaAuth Proofs.AnswerItems Proofs.Referral.
+From Coq Require Import Permutation.
 Open Scope N_scope.
 
-(* the zone cut the spec selects is the queried name or an ancestor, and has a visible NS *)
+(* REFUSED exactly for names outside every zone visible to the client *)
+Theorem C01_refused_iff_outside_zones : forall b recs L, wf_recs recs -> length L = 2%nat -> b <> RDB2 ->
+  wf_view L recs = true -> forall q n ecs max,
+  wf_name n -> lower_bytes (q_name q) = pack n -> (q_edns q = None \/ q_edns q = Some 0) ->
+  (zone_cut L recs n = None <-> serve b (store_v1 recs) q (LocOk L) ecs max = refused_reply q ecs).
+Proof. exact refused_iff_outside_zones_v1. Qed.
+Print Assumptions C01_refused_iff_outside_zones.
+
+(* at or below a delegation (the closest visible NS has no visible SOA; any type but DS): a
+   non-authoritative NOERROR reply with an empty answer section whose authority section is exactly
+   the NS records of the cut (owner = the cut, class = the query's class, declared TTL and target).
+   [wf_ns_rdata]: the rdata of NS records is one uncompressed wire name *)
+Theorem C01_referral_at_or_below_delegation : forall b recs L, wf_recs recs -> Forall wf_ns_rdata recs ->
+  length L = 2%nat -> b <> RDB2 -> wf_view L recs = true -> forall q n z ecs max x,
+  wf_name n -> nlen (pack n) <= 255 -> lower_bytes (q_name q) = pack n ->
+  (q_edns q = None \/ q_edns q = Some 0) -> q_type q <> 43 ->
+  zone_cut L recs n = Some z -> authoritative L recs z = false ->
+  serve b (store_v1 recs) q (LocOk L) ecs max = OReply x ->
+  rs_aa x = false /\ rs_rcode x = 0 /\ rs_an x = [] /\
+  rs_ns x = map (ns_item (pack z) (q_class q)) (filter is_ns (ordered_at recs L z)) /\
+  Permutation (filter is_ns (ordered_at recs L z)) (of_type 2 (own_records L recs z)).
+Proof. exact referral_v1. Qed.
+Print Assumptions C01_referral_at_or_below_delegation.
+
+(* inside an authoritative zone: NXDOMAIN exactly when neither the name nor a covering wildcard
+   (nearest ancestor inside the zone, across wild-safe labels only) has a visible record *)
+Theorem C01_nxdomain_iff_nothing : forall b recs L, wf_recs recs -> length L = 2%nat -> b <> RDB2 ->
+  wf_view L recs = true -> forall q n z ecs max x,
+  wf_name n -> nlen (pack n) <= 255 -> lower_bytes (q_name q) = pack n ->
+  (q_edns q = None \/ q_edns q = Some 0) ->
+  zone_cut L recs n = Some z -> authoritative L recs z = true ->
+  serve b (store_v1 recs) q (LocOk L) ecs max = OReply x ->
+  (rs_rcode x = 3 <-> source_records L recs z n = []).
+Proof. exact nxdomain_iff_nothing_v1. Qed.
+Print Assumptions C01_nxdomain_iff_nothing.
+
+(* inside an authoritative zone the reply has AA set, and an empty answer section comes with
+   exactly one visible SOA record of the zone apex in the authority section *)
+Theorem C01_empty_auth_has_soa : forall b recs L, wf_recs recs -> length L = 2%nat -> b <> RDB2 ->
+  wf_view L recs = true -> forall q n z ecs max x,
+  wf_name n -> nlen (pack n) <= 255 -> lower_bytes (q_name q) = pack n ->
+  (q_edns q = None \/ q_edns q = Some 0) ->
+  zone_cut L recs n = Some z -> authoritative L recs z = true ->
+  serve b (store_v1 recs) q (LocOk L) ecs max = OReply x ->
+  rs_aa x = true /\
+  (item_count (rs_an x) = 0 ->
+   exists r, In r (of_type 6 (own_records L recs z)) /\ rs_ns x = [soa_item (pack z) r]).
+Proof. exact empty_auth_has_soa_v1. Qed.
+Print Assumptions C01_empty_auth_has_soa.
+
+(* inside an authoritative zone the answer section is exactly [answer_of]: the declared records of
+   the queried type (or CNAME; every type for ANY) among the name's own visible records, else among
+   those of the covering wildcard - owner = the name as queried, class IN, declared TTL and rdata;
+   A / AAAA records as the candidate list (ttl, weight, address) with the number served,
+   min(max-answer, number of positive weights).  [src_ordered] lists the spec's [source_records]
+   in the order the reader meets them (records tagged with the client's location first) *)
+Theorem C01_answer_exactly_declared : forall b recs L, wf_recs recs -> length L = 2%nat -> b <> RDB2 ->
+  wf_view L recs = true -> forall q n z ecs max x,
+  wf_name n -> nlen (pack n) <= 255 -> lower_bytes (q_name q) = pack n ->
+  (q_edns q = None \/ q_edns q = Some 0) ->
+  zone_cut L recs n = Some z -> authoritative L recs z = true ->
+  serve b (store_v1 recs) q (LocOk L) ecs max = OReply x ->
+  rs_an x = answer_of (q_name q) (q_type q) max (src_ordered recs L z n) /\
+  Permutation (src_ordered recs L z n) (source_records L recs z n).
+Proof. exact answer_exactly_declared_v1. Qed.
+Print Assumptions C01_answer_exactly_declared.
+
+(* scope of wildcards (a property of the spec the theorems above refine to): records of a wildcard
+   answer only a name without visible records of its own ([source_records]); the covering wildcard
+   is a strict ancestor with visible wildcard records, reached across wild-safe labels only,
+   without passing the zone apex, and it is the nearest such ancestor *)
+Theorem C01_wildcard_scope : forall L recs apex n a,
+  covering_wildcard L recs apex n = Some a ->
+  exists labs, labs <> [] /\ n = labs ++ a /\ Forall (fun l => wildsafe_label l = true) labs /\
+    nonempty (wild_records L recs a) = true /\
+    (forall k, (k < length labs)%nat -> name_eqb (skipn k n) apex = false) /\
+    (forall k, (0 < k < length labs)%nat -> nonempty (wild_records L recs (skipn k n)) = false).
+Proof. exact covering_wildcard_scope. Qed.
+Print Assumptions C01_wildcard_scope.
+
+(* the zone-cut walk of IsAuthoritative computes the spec's zone cut *)
+Theorem C01_zone_walk : forall b recs L, wf_recs recs -> length L = 2%nat ->
+  forall n fuel, wf_name n -> wf_view L recs = true -> (length (pack n) < fuel)%nat ->
+  is_auth_v1 b (store_v1 recs) fuel (pack n) L false false =
+    Val (match zone_cut L recs n with
+         | Some z => mkAuth true (authoritative L recs z) (pack z) false
+         | None => mkAuth false false [0] false
+         end).
+Proof. exact is_auth_walk. Qed.
+Print Assumptions C01_zone_walk.
+
+(* compile . decode: the row stored for a record decodes to the record's type, ttl, weight and rdata *)
+Theorem C01_row_roundtrip : forall r wild, wf_rec r ->
+  extract_rr (row_of r) wild = Val (if Bool.eqb wild (r_wild r) then Some (head_of r) else None) /\
+  slice_from (row_of r) (h_off (head_of r)) = Val (r_rdata r).
+Proof. exact extract_row_of. Qed.
+Print Assumptions C01_row_roundtrip.
+
+(* get on the compiled store returns the rows declared for that key, in file order *)
+Theorem C01_get_compiled : forall recs k,
+  get (store_v1 recs) k = map row_of (filter (fun r => bytes_eqb (key_v1 r) k) recs).
+Proof. intros. unfold store_v1. rewrite get_store_of. exact (rows_for_v1 recs k). Qed.
+Print Assumptions C01_get_compiled.
+
+(* properties of the spec itself *)
 Theorem C01_zone_cut_sound : forall L recs n z,
   zone_cut L recs n = Some z ->
   ancestor_or_self z n /\ nonempty (of_type 2 (own_records L recs z)) = true.
 Proof. exact zone_cut_sound. Qed.
 Print Assumptions C01_zone_cut_sound.
 
-(* REFUSED is prescribed exactly when no ancestor-or-self of the name has a visible NS *)
-Theorem C01_refused_iff_outside_zones_spec : forall L recs n,
-  zone_cut L recs n = None ->
-  forall z, ancestor_or_self z n -> nonempty (of_type 2 (own_records L recs z)) = false.
-Proof. exact zone_cut_none. Qed.
-Print Assumptions C01_refused_iff_outside_zones_spec.
+(* C01_served_is_declared_partial.  Proved above for the v1 reader (CDB, RocksDB v1 keys): the
+   REFUSED clause, the NXDOMAIN clause, AA and SOA-on-empty-answer, the exact contents of the answer
+   section (own records, else covering wildcard; type or CNAME; TTL, rdata, candidates and number of
+   addresses), the referral clause (AA clear, NS of the cut in the authority section), the zone-cut
+   walk, row and key round trips.  NOT proved: the additional section (glue of a referral; soundness
+   for authoritative answers), the authority section of a non-empty answer, DS at or below a
+   delegation (unconstrained by the statement); and nothing of this for the closest-key (v2) reader, which needs C02's
+   simulation.  The differential run checks all of these clauses on
+   every generated file, query, client and backend (Run/Core.v: spec_c01_obs). *)
+
+(* the hypotheses are satisfiable with non-trivial values: a zone z. with a wildcard; the name
+   a.b.z. has no records of its own and is covered across the wild-safe labels a and b: NOERROR *)
+Example C01_example :
+  let recs := [mkRec [[122]] false None 6 60 0 [0; 0; 0; 0; 0; 1; 0; 0; 0; 2; 0; 0; 0; 3; 0; 0; 0; 4; 0; 0; 0; 5];
+               mkRec [[122]] false None 2 60 0 [1; 110; 0];
+               mkRec [[122]] true None 16 60 0 [1; 119]] in
+  let q := mkQ 1 [1; 65; 1; 98; 1; 122; 0] 16 1 None in
+  let n := [[97]; [98]; [122]] in
+  lower_bytes (q_name q) = pack n /\ wf_view [0; 0] recs = true /\
+  zone_cut [0; 0] recs n = Some [[122]] /\ authoritative [0; 0] recs [[122]] = true /\
+  source_records [0; 0] recs [[122]] n = [mkRec [[122]] true None 16 60 0 [1; 119]] /\
+  serve CDB (store_v1 recs) q (LocOk [0; 0]) None 1 =
+    OReply (mkResp 1 (Some ([1; 65; 1; 98; 1; 122; 0], 16, 1)) 0 true
+              [IRR (mkRR [1; 65; 1; 98; 1; 122; 0] 16 1 60 [1; 119])] [] [] None).
+Proof. vm_compute. repeat split; reflexivity. Qed.
+Print Assumptions C01_example.
